@@ -63,6 +63,15 @@ CHECKS["C13"] = dict(
          "disjunctions. Outside: longer strings, code points outside the universe, NUL (not representable in C strings), "
          "from_package NVR string parsing.")
 
+CHECKS["C12"] = dict(
+    text="Bounded model checking of the real rule.process / Response construction / evaluator reporting code: one rule over every "
+         "dependency situation x 16 return kinds (each make_*, None, truthy and falsy non-Responses, crash, skip) x a symbolic "
+         "enabled flag must end in exactly one outcome of the right kind; Response construction over every class x key kind x "
+         "reserved-name subset x payload size with the size limit an unconstrained symbolic int (the solver places it on both sides "
+         "of each length) must reject / stub / keep exactly as stated; SingleEvaluator and JsonFormat must list every result of <=2 "
+         "(quick) / <=3 (thorough) rules once under its own heading for every missing / show_rules combination.",
+    note="Outside: jinja rendering and the text/html/yaml/syslog formatters' output syntax.")
+
 NOT_APPLICABLE = {
 }
 
